@@ -223,6 +223,10 @@ def main(tier: str, seed: int) -> int:
     chk.cov["transitions"] += info["states"]
     scheds = schedules(behs)
     common.boot()
+    from primaite.session.io import PrimaiteIO
+
+    _scratch_sessions = common.tmpdir("verif_c01_sessions_")
+    PrimaiteIO.generate_session_path = lambda self, timestamp=None: _scratch_sessions  # (nothing is written under the home directory)
     rec = Recorder()
     rec.install()
     traces = []
@@ -253,16 +257,32 @@ def main(tier: str, seed: int) -> int:
     bases = [("gen:firewalled_dmz", scenarios.firewalled(dmz=True)), ("gen:switched", scenarios.switched(3)),
              ("gen:routed", scenarios.routed()), ("gen:wireless", scenarios.test_asset("wireless_wan_network_config.yaml")),
              ("gen:data_manipulation", scenarios.shipped("data_manipulation.yaml"))]
+    # a LAN whose hosts carry every configurable application (their configure actions take addresses and ports)
+    red = scenarios.switched(3)
+    for n in red["simulation"]["network"]["nodes"]:
+        if n["type"] in ("computer", "server"):
+            n["applications"] = [{"type": "dos-bot"}, {"type": "ransomware-script"}, {"type": "c2-beacon"}, {"type": "database-client"},
+                                 {"type": "c2-server"}]
+    bases.append(("gen:configurable_applications", red))
     nfam = 6 if tier == "quick" else 60
     for i in range(nfam):
         label, base = bases[i % len(bases)]
         cfg = generated(base, rng, per_type=2 if tier == "quick" else 3)
+        if i % 2 == 1 or label == "gen:configurable_applications":
+            # the agents' histories are written out at every reset / close (session directory redirected to scratch)
+            cfg.setdefault("io_settings", {})["save_agent_actions"] = True
+            label += "+save_agent_actions"
         sched = []
         for s in scheds[(k + i) % len(scheds)]:
             sched += [s] if s == "reset" else [s] * 4
+        if label.startswith("gen:configurable_applications"):
+            # every configure / command action of the map once, then a reset (the histories are written out), twice
+            am = cfg["agents"][-1]["action_space"]["action_map"]
+            conf = [k for k, e in am.items() if e["action"].startswith(("configure-", "c2-server-"))]
+            sched = ([("act", "configure", k, None) for k in conf] + ["reset"]) * 2 + sched
         max_len = max(2, sum(1 for s in sched if s != "reset") // 2)
         traces.append(run_env(rec, f"{label}#{i}", cfg, sched, max_len, rng))
-        chk.add_case({"s": label, "sched": sched, "i": i})
+        chk.add_case({"s": label, "sched": [x if isinstance(x, str) else list(x[:3]) for x in sched], "i": i})
     # transition tours of the life-cycle product (spec/Lifecycle.tla): every (power state x component state, action)
     # edge, i.e. every operation at every reachable state of a node and a service / application / file on it
     from . import tour
